@@ -532,9 +532,14 @@ def _expand(arg):
     return out
 
 
-def bfs(depth, diff_set, seed):
+def bfs(depth, diff_set, seed, budget_s=None):
     """Level-synchronous BFS; the frontier of each level is expanded by the
-    worker pool, de-duplication is global (here)."""
+    worker pool, de-duplication is global (here).  ``budget_s`` (thorough
+    only): a level is not started when it is predicted (8 x the previous
+    level) to end after the budget; the result is then marked capped and
+    reports the depth completed."""
+    t0 = t_level = time.time()
+    t_last = 0.0
     rnd = random.Random(seed)
     r0 = Run()
     msg = r0.check()
@@ -542,13 +547,18 @@ def bfs(depth, diff_set, seed):
     front = [b'']
     res = dict(states=1, transitions=0, depth=0, violation=None,
                labels=collections.Counter(), diff=0, per_level=[1],
-               samples=[])
+               samples=[], capped=False)
     if msg:
         res['violation'] = ([], msg)
         return res
     for d in range(depth):
         if not front:
             break
+        if budget_s is not None and \
+                time.time() - t0 + 8 * t_last > budget_s:
+            res['capped'] = True
+            break
+        t_level = time.time()
         order = list(range(len(front)))
         rnd.shuffle(order)
         nchunk = 1 if len(front) < 64 else min(len(front) // 16,
@@ -577,6 +587,7 @@ def bfs(depth, diff_set, seed):
         res['depth'] = d + 1
         res['states'] = len(seen)
         res['per_level'].append(nnew)
+        t_last = time.time() - t_level
         progress('bfs level', d + 1, 'states', len(seen), 'transitions',
                  res['transitions'])
         if res['violation']:
@@ -1112,7 +1123,7 @@ def main(tier, seed, only=None):
     want = lambda name: only is None or name in only          # noqa: E731
     if want('bfs'):
         depth, diff_set = (8, 4) if thorough else (6, 3)
-        r = bfs(depth, diff_set, seed)
+        r = bfs(depth, diff_set, seed, 420.0 if thorough else None)
         if r['violation']:
             h, msg = r['violation']
             rep.violation('history %r\n%s' % (h, msg),
@@ -1120,7 +1131,7 @@ def main(tier, seed, only=None):
         rep.part('bfs', evaluations=r['transitions'] + r['diff'],
                  states=r['states'], transitions=r['transitions'],
                  outcomes=r['labels'].keys(), samples=r['samples'],
-                 depth=r['depth'], new_states_per_level=r['per_level'],
+                 capped=r['capped'], depth=r['depth'], depth_planned=depth, new_states_per_level=r['per_level'],
                  order_independence_runs=r['diff'],
                  order_independence_set_size=diff_set,
                  transition_kinds=dict(r['labels']), alphabet=dict(
